@@ -167,7 +167,7 @@ def reduce_source(src, still_fails, budget_s=45, keep_defassign=False):
 
 
 PREAMBLE_GLOBALS = frozenset(['functools', 'LOG', '_r', '_Overflow', 'T', 'CM', 'Obj', 'LI', 'E1', 'E2', 'E3', 'H', 'H2', 'R',
-                              'RAISER', 'P1', 'P2', 'G1', 'G2', 'PH', 'malt', 'getcv', 'make', 'f'])
+                              'RAISER', 'P1', 'P2', 'G1', 'G2', 'zG3', 'PH', 'malt', 'getcv', 'make', 'f'])
 
 
 def body_of(src):
